@@ -92,7 +92,7 @@ def plainOperand (x : QCtx) (hashed : List Nat) : Operand → Bool
 def supportedCmp (x : QCtx) (hashed : List Nat) (l : Operand) (op : Op) (r : Operand) : Bool :=
   match classify x l op r with
   | .none => plainOperand x hashed l && plainOperand x hashed r
-  | .join _ _ => hashedOp x.d op
+  | .join lc _ => hashedOp x.d op && x.searchable lc
   | .value _ _ => true
   | .param _ _ => true
   | .castParam _ _ => false
@@ -122,11 +122,27 @@ structure RowOk (x : QCtx) (k : Bytes) (row : Row) (pv : ColRef → Option Bytes
 
 theorem classify_join {x : QCtx} {l r : Operand} {op : Op} {lc rc : ColRef}
     (h : classify x l op r = .join lc rc) :
-    l = .col lc ∧ r = .col rc ∧ x.searchable lc = true ∧ x.searchable rc = true := by
+    l = .col lc ∧ r = .col rc ∧ (x.searchable lc = true ∨ x.tokenized lc = true) ∧ x.searchable rc = true := by
   cases l with
   | col c =>
     cases hs : x.searchable c with
-    | false => simp [classify, hs] at h
+    | false =>
+      cases r with
+      | col c2 =>
+        simp only [classify, hs, Bool.not_false, if_true] at h
+        split at h
+        · rename_i hc
+          simp only [Bool.and_eq_true] at hc
+          simp only [Item.join.injEq] at h
+          obtain ⟨h1, h2⟩ := h
+          subst h1; subst h2
+          exact ⟨rfl, rfl, Or.inr hc.1, hc.2⟩
+        · simp at h
+      | lit v => simp [classify, hs] at h
+      | cast v => simp [classify, hs] at h
+      | param i => simp [classify, hs] at h
+      | castParam i => simp [classify, hs] at h
+      | other => simp [classify, hs] at h
     | true =>
       cases r with
       | col c2 =>
@@ -136,7 +152,7 @@ theorem classify_join {x : QCtx} {l r : Operand} {op : Op} {lc rc : ColRef}
           simp [classify, hs, hs2] at h
           obtain ⟨h1, h2⟩ := h
           subst h1; subst h2
-          exact ⟨rfl, rfl, hs, hs2⟩
+          exact ⟨rfl, rfl, Or.inl hs, hs2⟩
       | lit v => simp [classify, hs] at h; split at h <;> simp at h
       | cast v => simp [classify, hs] at h; split at h <;> simp at h
       | param i => simp [classify, hs] at h; split at h <;> simp at h
@@ -154,7 +170,7 @@ theorem classify_value {x : QCtx} {l r : Operand} {op : Op} {lc : ColRef} {v : B
   cases l with
   | col c =>
     cases hs : x.searchable c with
-    | false => simp [classify, hs] at h
+    | false => cases r <;> simp [classify, hs] at h <;> (split at h <;> simp at h)
     | true =>
       cases r with
       | col c2 => simp [classify, hs] at h; split at h <;> simp at h
@@ -192,7 +208,7 @@ theorem classify_param {x : QCtx} {l r : Operand} {op : Op} {lc : ColRef} {i : N
   cases l with
   | col c =>
     cases hs : x.searchable c with
-    | false => simp [classify, hs] at h
+    | false => cases r <;> simp [classify, hs] at h <;> (split at h <;> simp at h)
     | true =>
       cases r with
       | col c2 => simp [classify, hs] at h; split at h <;> simp at h
@@ -228,41 +244,6 @@ theorem updateValue_ok (x : QCtx) (k v h : Bytes) (hk : x.hkey = some k) (hm : r
   split at hu
   · cases hu
   · cases hu; rfl
-
-theorem hashAt_spec (x : QCtx) (k : Bytes) (hk : x.hkey = some k) (values : List Bytes) :
-    ∀ (idxs : List Nat) (acc out : List Bytes), acc.length = values.length →
-      (∀ i ∈ idxs, ∀ v, values[i]? = some v → registryMatch v = false) →
-      hashAt x values idxs acc = .ok out →
-      ∀ j, out[j]? = if j ∈ idxs then (values[j]?).map (generateHMAC x.c k) else acc[j]? := by
-  intro idxs
-  induction idxs with
-  | nil =>
-    intro acc out _ _ h j
-    simp [hashAt] at h
-    subst h
-    simp
-  | cons i is ih =>
-    intro acc out hlen hm h j
-    unfold hashAt at h
-    cases hv : values[i]? with
-    | none => simp [hv] at h
-    | some v =>
-      have hmv : registryMatch v = false := hm i (by simp) v hv
-      simp only [hv, calcHmac_plain x k v hk hmv] at h
-      have hlen' : (acc.set i (generateHMAC x.c k v)).length = values.length := by simp [hlen]
-      have ih' := ih (acc.set i (generateHMAC x.c k v)) out hlen'
-        (fun i' hi' => hm i' (by simp [hi'])) h j
-      rw [ih']
-      have hilt : i < acc.length := by
-        rw [hlen]
-        exact (List.getElem?_eq_some_iff.mp hv).1
-      by_cases hj : j ∈ is
-      · simp [hj]
-      · by_cases hji : j = i
-        · subst hji
-          simp [hj, hv, List.getElem?_set, hilt]
-        · have hij : ¬ i = j := fun e => hji e.symm
-          simp [hj, hji, List.getElem?_set, hij]
 
 /-! ### one comparison -/
 
@@ -320,8 +301,10 @@ theorem rewriteCmp_exact (x : QCtx) (hl : HashLen x.c) (k : Bytes) (hk : x.hkey 
   | join lc rc =>
     simp only [hc] at hq hsup
     cases hq
-    obtain ⟨hlq, hrq, hsl, hsr⟩ := classify_join hc
+    obtain ⟨hlq, hrq, _, hsr⟩ := classify_join hc
     subst hlq; subst hrq
+    simp only [Bool.and_eq_true] at hsup
+    obtain ⟨hsup, hsl⟩ := hsup
     obtain ⟨p1, e1, hpv1, hg1⟩ := hrow.srch lc hsl
     obtain ⟨p2, e2, hpv2, hg2⟩ := hrow.srch rc hsr
     show evalCmp (evalExpr params' row (substrOf x.d false lc false)) (changeOp x.d op)
@@ -468,6 +451,211 @@ theorem itemParams_value (x : QCtx) (params : List Bytes) :
     | inl h => exact Or.inl (iha i v h hv)
     | inr h => exact Or.inr (ihb i v h hv)
 
+/-! ### `OnBind`: the count check and the once-only replacement -/
+
+/-- the switches regenerated from the source: `OnBind` counts only the placeholders of searchable
+columns, and `replaceValuesWithHMACs` replaces a position once (both are the repaired shapes; on the
+pinned tree both are `false` and this theorem – with everything built on it – does not check) -/
+theorem bind_switches (d : Dialect) : bindCountsSearchableOnly d = true ∧ replacesOnce d = true := by
+  cases d <;> decide
+
+theorem bindEntries_true_mem (x : QCtx) :
+    ∀ (cond : Cond) (k : Nat), (k, true) ∈ bindEntries x cond → k ∈ itemParams x cond := by
+  intro cond
+  induction cond with
+  | cmp l op r =>
+    intro k hk
+    cases l with
+    | col lc =>
+      cases r with
+      | param i =>
+        simp only [bindEntries] at hk
+        split at hk
+        · rename_i hc
+          simp only [List.mem_singleton, Prod.mk.injEq] at hk
+          obtain ⟨hki, hs⟩ := hk
+          subst hki
+          simp only [Bool.and_eq_true] at hc
+          simp [itemParams, classify, ← hs, hc.2]
+        · simp at hk
+      | col _ => simp [bindEntries] at hk
+      | lit _ => simp [bindEntries] at hk
+      | cast _ => simp [bindEntries] at hk
+      | castParam _ => simp [bindEntries] at hk
+      | other => simp [bindEntries] at hk
+    | lit _ => simp [bindEntries] at hk
+    | cast _ => simp [bindEntries] at hk
+    | param _ => simp [bindEntries] at hk
+    | castParam _ => simp [bindEntries] at hk
+    | other => simp [bindEntries] at hk
+  | and a b iha ihb =>
+    intro k hk
+    simp only [bindEntries, List.mem_append] at hk
+    simp only [itemParams, List.mem_append]
+    exact hk.elim (fun h => Or.inl (iha k h)) (fun h => Or.inr (ihb k h))
+  | or a b iha ihb =>
+    intro k hk
+    simp only [bindEntries, List.mem_append] at hk
+    simp only [itemParams, List.mem_append]
+    exact hk.elim (fun h => Or.inl (iha k h)) (fun h => Or.inr (ihb k h))
+
+theorem assign_keys_nodup (m : List (Nat × Bool)) (k : Nat) (v : Bool) (h : (m.map (·.1)).Nodup) :
+    ((assign m k v).map (·.1)).Nodup := by
+  unfold assign
+  simp only [List.map_cons, List.nodup_cons]
+  constructor
+  · intro hk
+    obtain ⟨e, he, hek⟩ := List.mem_map.mp hk
+    have := (List.mem_filter.mp he).2
+    simp [hek] at this
+  · exact List.Nodup.sublist (List.Sublist.map _ List.filter_sublist) h
+
+theorem assign_mem {m : List (Nat × Bool)} {k : Nat} {v : Bool} {e : Nat × Bool} (h : e ∈ assign m k v) :
+    e = (k, v) ∨ e ∈ m := by
+  unfold assign at h
+  simp only [List.mem_cons] at h
+  exact h.elim Or.inl (fun h => Or.inr (List.mem_filter.mp h).1)
+
+theorem foldl_assign_inv (P : Nat → Prop) :
+    ∀ (es m : List (Nat × Bool)), (m.map (·.1)).Nodup → (∀ k, (k, true) ∈ m → P k) → (∀ k, (k, true) ∈ es → P k) →
+      ((es.foldl (fun m e => assign m e.1 e.2) m).map (·.1)).Nodup ∧
+      ∀ k, (k, true) ∈ es.foldl (fun m e => assign m e.1 e.2) m → P k := by
+  intro es
+  induction es with
+  | nil => intro m hn hm _; exact ⟨hn, hm⟩
+  | cons e es ih =>
+    intro m hn hm he
+    simp only [List.foldl_cons]
+    apply ih (assign m e.1 e.2) (assign_keys_nodup m e.1 e.2 hn)
+    · intro k hk
+      cases assign_mem hk with
+      | inl h =>
+        have h1 : k = e.1 := congrArg Prod.fst h
+        have h2 : true = e.2 := congrArg Prod.snd h
+        apply he k
+        have : e = (k, true) := by cases e; simp_all
+        rw [this]; simp
+      | inr h => exact hm k h
+    · intro k hk
+      exact he k (List.mem_cons_of_mem _ hk)
+
+/-- **The count check of the repaired `OnBind` can never suppress the hashing**: the placeholders of
+searchable columns recorded by `ParseSearchQueryPlaceholdersSettings` are never more than the placeholders
+`OnBind` itself collects – whatever else the statement compares (tokenized, encrypted, plain columns). -/
+theorem bindCount_own_le (x : QCtx) (cond : Cond) : bindCount true x cond ≤ (itemParams x cond).length := by
+  unfold bindCount
+  simp only [if_true]
+  obtain ⟨hn, hm⟩ := foldl_assign_inv (fun k => k ∈ itemParams x cond) (bindEntries x cond) [] (by simp) (by simp)
+    (bindEntries_true_mem x cond)
+  have hlen : ((bindData x cond).filter (·.2)).length = (((bindData x cond).filter (·.2)).map (·.1)).length := by simp
+  rw [hlen]
+  apply List.Nodup.length_le_of_subset
+  · exact List.Nodup.sublist (List.Sublist.map _ List.filter_sublist) hn
+  · intro k hk
+    obtain ⟨e, he, hek⟩ := List.mem_map.mp hk
+    obtain ⟨hem, he2⟩ := List.mem_filter.mp he
+    apply hm k
+    have : e = (k, true) := by cases e; simp_all
+    rw [← this]; exact hem
+
+theorem hashShared_spec (x : QCtx) (k : Bytes) (hk : x.hkey = some k) (values : List Bytes) :
+    ∀ (idxs done : List Nat) (acc out : List Bytes), acc.length = values.length →
+      (∀ i ∈ idxs, ∀ v, values[i]? = some v → registryMatch v = false) →
+      (∀ j, acc[j]? = if j ∈ done then (values[j]?).map (generateHMAC x.c k) else values[j]?) →
+      hashShared x true idxs done acc = .ok out →
+      ∀ j, out[j]? = if j ∈ done ∨ j ∈ idxs then (values[j]?).map (generateHMAC x.c k) else values[j]? := by
+  intro idxs
+  induction idxs with
+  | nil =>
+    intro done acc out _ _ hacc h j
+    simp [hashShared] at h
+    subst h
+    simp [hacc j]
+  | cons i is ih =>
+    intro done acc out hlen hm hacc h j
+    unfold hashShared at h
+    by_cases hd : i ∈ done
+    · simp only [Bool.true_and, List.contains_iff_mem, hd, if_true] at h
+      rw [ih done acc out hlen (fun i' hi' => hm i' (by simp [hi'])) hacc h j]
+      by_cases hj : j = i
+      · subst hj; simp [hd]
+      · simp [hj]
+    · simp only [Bool.true_and, List.contains_iff_mem, hd, if_false] at h
+      have hai : acc[i]? = values[i]? := by rw [hacc i]; simp [hd]
+      rw [hai] at h
+      cases hv : values[i]? with
+      | none => simp [hv] at h
+      | some v =>
+        have hmv : registryMatch v = false := hm i (by simp) v hv
+        simp only [hv, calcHmac_plain x k v hk hmv] at h
+        have hilt : i < acc.length := by
+          rw [hlen]; exact (List.getElem?_eq_some_iff.mp hv).1
+        have hlen' : (acc.set i (generateHMAC x.c k v)).length = values.length := by simp [hlen]
+        have hacc' : ∀ j, (acc.set i (generateHMAC x.c k v))[j]? =
+            if j ∈ i :: done then (values[j]?).map (generateHMAC x.c k) else values[j]? := by
+          intro j
+          by_cases hji : j = i
+          · subst hji; simp [hv, hilt]
+          · have hij : ¬ i = j := fun e => hji e.symm
+            simp [hij, hji, hacc j]
+        rw [ih (i :: done) _ out hlen' (fun i' hi' => hm i' (by simp [hi'])) hacc' h j]
+        by_cases hji : j = i
+        · subst hji; simp
+        · simp [hji]
+
+/-- with a key, in-range positions and values that are not themselves envelopes the replacement succeeds -/
+theorem hashShared_total (x : QCtx) (k : Bytes) (hk : x.hkey = some k) (values : List Bytes) :
+    ∀ (idxs done : List Nat) (acc : List Bytes), acc.length = values.length →
+      (∀ i ∈ idxs, i < values.length) →
+      (∀ i ∈ idxs, ∀ v, values[i]? = some v → registryMatch v = false) →
+      (∀ j, acc[j]? = if j ∈ done then (values[j]?).map (generateHMAC x.c k) else values[j]?) →
+      ∃ out, hashShared x true idxs done acc = .ok out := by
+  intro idxs
+  induction idxs with
+  | nil => intro done acc _ _ _ _; exact ⟨acc, rfl⟩
+  | cons i is ih =>
+    intro done acc hlen hlt hm hacc
+    unfold hashShared
+    by_cases hd : i ∈ done
+    · simp only [Bool.true_and, List.contains_iff_mem, hd, if_true]
+      exact ih done acc hlen (fun i' hi' => hlt i' (by simp [hi'])) (fun i' hi' => hm i' (by simp [hi'])) hacc
+    · simp only [Bool.true_and, List.contains_iff_mem, hd, if_false]
+      have hilt : i < values.length := hlt i (by simp)
+      have hv : values[i]? = some values[i] := List.getElem?_eq_getElem hilt
+      have hai : acc[i]? = some values[i] := by rw [hacc i]; simp [hd, hv]
+      have hmv : registryMatch values[i] = false := hm i (by simp) _ hv
+      simp only [hai, calcHmac_plain x k _ hk hmv]
+      have hlen' : (acc.set i (generateHMAC x.c k values[i])).length = values.length := by simp [hlen]
+      apply ih (i :: done) _ hlen' (fun i' hi' => hlt i' (by simp [hi'])) (fun i' hi' => hm i' (by simp [hi']))
+      intro j
+      by_cases hji : j = i
+      · subst hji; simp [hv, hlen, hilt]
+      · have hij : ¬ i = j := fun e => hji e.symm
+        simp [hij, hji, hacc j]
+
+/-- **`OnBind` hashes every search parameter, whatever else the statement compares**: with an HMAC key,
+every placeholder of a searchable comparison inside the bound values and no bound search value that is
+itself an envelope, `OnBind` succeeds – it never falls back to forwarding the values as the client sent
+them – and the values it forwards are hashed exactly at the placeholders of searchable comparisons
+(once each, also when a placeholder is used in several comparisons) and untouched elsewhere. -/
+theorem rewriteBind_total (x : QCtx) (k : Bytes) (hk : x.hkey = some k) (cond : Cond) (params : List Bytes)
+    (hlt : ∀ j ∈ itemParams x cond, j < params.length)
+    (hm : ∀ v ∈ condValues x params cond, registryMatch v = false) :
+    ∃ params', rewriteBind x cond params = .ok params' := by
+  unfold rewriteBind
+  rw [(bind_switches x.d).1, (bind_switches x.d).2]
+  unfold rewriteBindWith
+  simp only
+  have hany : ¬ ((itemParams x cond).any fun i => decide (params.length ≤ i)) = true := by
+    intro h
+    obtain ⟨j, hj, hle⟩ := List.any_eq_true.mp h
+    have := hlt j hj
+    simp at hle
+    omega
+  rw [if_neg hany, if_neg (Nat.not_lt.mpr (bindCount_own_le x cond))]
+  exact hashShared_total x k hk params (itemParams x cond) [] params rfl hlt
+    (fun i hi v hv => hm v (itemParams_value x params cond i v hi hv)) (by simp)
+
 /-- what `OnBind` sends to the database: hashed at the collected positions, untouched elsewhere -/
 theorem rewriteBind_spec (x : QCtx) (k : Bytes) (hk : x.hkey = some k) (cond : Cond) (params params' : List Bytes)
     (hm : ∀ v ∈ condValues x params cond, registryMatch v = false)
@@ -475,15 +663,21 @@ theorem rewriteBind_spec (x : QCtx) (k : Bytes) (hk : x.hkey = some k) (cond : C
     (∀ j ∈ itemParams x cond, j < params.length) ∧
     ∀ j, params'[j]? = if j ∈ itemParams x cond then (params[j]?).map (generateHMAC x.c k) else params[j]? := by
   unfold rewriteBind at hb
+  rw [(bind_switches x.d).1, (bind_switches x.d).2] at hb
+  unfold rewriteBindWith at hb
   simp only at hb
   split at hb
   · cases hb
   · rename_i hany
-    constructor
-    · intro j hj
+    have hlt : ∀ j ∈ itemParams x cond, j < params.length := by
+      intro j hj
       have := fun h => hany (List.any_eq_true.mpr ⟨j, hj, by simpa using h⟩)
       exact Nat.lt_of_not_le this
-    · exact hashAt_spec x k hk params (itemParams x cond) params params' rfl
-        (fun i hi v hv => hm v (itemParams_value x params cond i v hi hv)) hb
+    refine ⟨hlt, ?_⟩
+    rw [if_neg (Nat.not_lt.mpr (bindCount_own_le x cond))] at hb
+    intro j
+    have := hashShared_spec x k hk params (itemParams x cond) [] params params' rfl
+      (fun i hi v hv => hm v (itemParams_value x params cond i v hi hv)) (by simp) hb j
+    simpa using this
 
 end AcraModel.Searchable
